@@ -331,7 +331,7 @@ func (w *c15World) quiesce() bool {
 // progress makes every live watcher take an etcd progress notification (a
 // response without events).
 func (w *c15World) progress() bool {
-	rev := c15BaseRev + int64(w.etcd.logLen())
+	rev := w.etcd.rev()
 	for _, lw := range w.live {
 		if ok, _ := c15Send(lw, c15Response(nil, rev)); !ok {
 			w.inconclusive("watcher %d did not take the progress notification within %v", lw.id, c15Watchdog)
@@ -530,26 +530,30 @@ func (w *c15World) attach(svcIdx int, excl bool) {
 
 // rewatch breaks one live watch stream (channel closed, or a Canceled response):
 // the registry must re-subscribe and converge again.
-func (w *c15World) rewatch(i int, cancel bool) {
+func (w *c15World) rewatch(i int, how string) {
 	if w.pending() > 0 || len(w.live) == 0 {
 		return
 	}
 	i %= len(w.live)
-	name := "wclose"
-	if cancel {
-		name = "wcancel"
-	}
-	w.ops = append(w.ops, c15Op{Op: name, N: i})
+	w.ops = append(w.ops, c15Op{Op: how, N: i})
 	lw := w.live[i]
 	nb := w.etcd.watchCount()
-	if cancel {
-		if ok, _ := c15Send(lw, clientv3.WatchResponse{Canceled: true}); !ok {
-			w.inconclusive("watcher %d did not take the cancel response", lw.id)
+	// as the etcd client: an error response is the last one, then the channel is closed
+	var last *clientv3.WatchResponse
+	switch how {
+	case "wcancel":
+		last = &clientv3.WatchResponse{Canceled: true}
+	case "wcompact":
+		// Err() != nil without Canceled: the requested revision was compacted
+		last = &clientv3.WatchResponse{CompactRevision: w.etcd.rev()}
+	}
+	if last != nil {
+		if ok, _ := c15Send(lw, *last); !ok {
+			w.inconclusive("watcher %d did not take the error response", lw.id)
 			return
 		}
-	} else {
-		close(lw.ch)
 	}
+	close(lw.ch)
 	if !w.waitWatches(nb+1, "re-watch") {
 		return
 	}
@@ -877,10 +881,8 @@ func (w *c15World) exec(op c15Op) {
 		}
 	case "reload":
 		w.reload()
-	case "wclose":
-		w.rewatch(op.N, false)
-	case "wcancel":
-		w.rewatch(op.N, true)
+	case "wclose", "wcancel", "wcompact":
+		w.rewatch(op.N, op.Op)
 	case "state":
 		w.state(op.S)
 	case "progress":
